@@ -286,19 +286,27 @@ def _c15_gate(idx: Index, res: Result) -> None:
     # facts: (configured: 'yes'|'no'|'?', checked: bool, scheme: bool, whole: bool, names known to be None)
     def transfer(node: Node, fact, label: str):
         conf, checked, scheme, whole, nones = fact
+        # names known to be None are recorded as "x", names known to hold an object (a response that was just built) as "+x"
         if node.kind == "stmt" and label != "exc" and isinstance(node.ast, ast.Assign):
             for t in node.ast.targets:
                 if isinstance(t, ast.Name):
-                    if is_none_or_false(node.ast.value) and node.ast.value is not None:
+                    v = node.ast.value
+                    nones = nones - {t.id, "+" + t.id}
+                    if is_none_or_false(v) and v is not None:
                         nones = nones | {t.id}
-                    else:
-                        nones = nones - {t.id}
+                    elif (isinstance(v, ast.Call) and call_name(v) in ("make_response", "Response", "jsonify")) or \
+                            (isinstance(v, ast.Name) and "+" + v.id in nones) or (isinstance(v, ast.Constant) and v.value not in (None, False)):
+                        nones = nones | {"+" + t.id}
+                    elif isinstance(v, ast.Name) and v.id in nones:
+                        nones = nones | {t.id}
         if node.kind == "test" and label in ("true", "false"):
             for atom, truth in implied(node.ast, label == "true"):
                 if isinstance(atom, ast.Compare) and len(atom.ops) == 1 and isinstance(atom.ops[0], ast.Is) \
                         and isinstance(atom.left, ast.Name) and is_none_or_false(atom.comparators[0]):
                     if atom.left.id in nones and not truth:
                         return []          # infeasible: the name is None on this path
+                    if "+" + atom.left.id in nones and truth:
+                        return []          # infeasible: the name holds an object on this path
                     if truth:
                         nones = nones | {atom.left.id}
                     continue
@@ -355,12 +363,15 @@ def _c15_gate(idx: Index, res: Result) -> None:
             nrefuse += 1
             v = n.ast.value
             sts: Set[Optional[int]] = set()
-            if isinstance(v, ast.Name) and v.id in resp_status:
-                sts = resp_status[v.id]
-            elif v is not None:
-                sts = {make_response_status(v)}
-            else:
+            if v is None:
                 sts = {None}
+            else:
+                # the returned name may be a copy of the response built on the refusal branch (refusal = resp)
+                for val in (_resolve(v, assigns) or [v]):
+                    if isinstance(val, ast.Name) and val.id in resp_status:
+                        sts |= resp_status[val.id]
+                    else:
+                        sts.add(make_response_status(val))
             ok = all(s is not None and s >= 400 for s in sts)
             res.check("GATE", "refusal %s" % norm_stmt(n.ast), ok, inner.loc(n.ast), inner.qual, norm_stmt(n.ast),
                       "a refusal path of the gate does not return a constant non-success status (statuses seen: %s)" % sorted(map(str, sts)),
@@ -907,14 +918,25 @@ def check_c17(idx: Index, tier: str, res: Result) -> None:
 
     def tr_out(node: Node, fact, label):
         if node.kind == "iter" and label == "loop":
-            return [(None, False)]                   # a new instance: nothing decided, nothing destroyed yet
-        outcome, destroyed = fact
+            return [(None, False, frozenset())]      # a new instance: nothing decided, nothing destroyed yet
+        outcome, destroyed, flags = fact
         if node.kind == "test" and node.ast is ifn.test and label in ("true", "false"):
             outcome = label == "true"
+        elif node.kind == "test" and label in ("true", "false"):
+            # a verdict carried in a boolean local (expired = True ... if expired:) decides the branch it was set for
+            for atom, truth in implied(node.ast, label == "true"):
+                if isinstance(atom, ast.Name) and (atom.id, not truth) in flags:
+                    return []
+        if node.kind == "stmt" and label != "exc" and isinstance(node.ast, ast.Assign) and len(node.ast.targets) == 1 \
+                and isinstance(node.ast.targets[0], ast.Name):
+            nm = node.ast.targets[0].id
+            flags = frozenset(x for x in flags if x[0] != nm)
+            if isinstance(node.ast.value, ast.Constant) and isinstance(node.ast.value.value, bool):
+                flags = flags | {(nm, node.ast.value.value)}
         if node.kind == "stmt" and label != "exc" and is_destroy(node.ast):
             destroyed = True
-        return [(outcome, destroyed)]
-    sflow = Flow(scfg, [(None, False)], tr_out)
+        return [(outcome, destroyed, flags)]
+    sflow = Flow(scfg, [(None, False, frozenset())], tr_out)
     d_nodes = [nd for nd in scfg.nodes if nd.kind == "stmt" and is_destroy(nd.ast)]
     r_nodes = [nd for nd in scfg.nodes if nd.kind == "stmt" and is_remove(nd.ast)]
     outcomes = {f[0] for nd in (d_nodes + r_nodes) for f in sflow.at[nd.id]}
